@@ -660,6 +660,40 @@ fn eval(a: &[String]) -> String {
       }
       out
     }
+    "hour_nine_star_at" => {
+      // star index of the 12 double hours (01:00, 03:00, ..) of a date, lunar-hour route, then the day branch
+      let d = SolarDay::from_ymd(v[0] as isize, v[1] as usize, v[2] as usize);
+      let mut out = String::new();
+      for h in [0usize, 1, 3, 5, 7, 9, 11, 13, 15, 17, 19, 21, 23] {
+        let t = SolarTime::from_ymd_hms(v[0] as isize, v[1] as usize, v[2] as usize, h, 0, 0);
+        out += &format!("{}/{} ", t.get_lunar_hour().get_nine_star().get_index(), t.get_sixty_cycle_hour().get_nine_star().get_index());
+      }
+      format!("{}branch {}", out, d.get_sixty_cycle_day().get_sixty_cycle().get_earth_branch().get_index())
+    }
+    "hour_nine_star_scan" => {
+      // v[0]: 0 lunar-hour route, 1 instant-level route.  Every 5th day of 2019..2026 plus Dec 18..31 of each year, hours 1, 12, 23
+      let mut out = "NONE".to_string();
+      'scan: for y in 2019isize..=2026 {
+        let w = SolarTerm::from_index(y, 0).get_julian_day().get_solar_day();
+        let s = SolarTerm::from_index(y, 12).get_julian_day().get_solar_day();
+        let w2 = SolarTerm::from_index(y, 24).get_julian_day().get_solar_day();
+        let mut d = SolarDay::from_ymd(y, 1, 1);
+        while d.get_year() == y {
+          let asc = (!d.is_before(w) && d.is_before(s)) || !d.is_before(w2);
+          for h in [1usize, 12, 23] {
+            let t = SolarTime::from_ymd_hms(y, d.get_month(), d.get_day(), h, 0, 0);
+            let (got, db) = if v[0] == 0 { (t.get_lunar_hour().get_nine_star().get_index() as i64, d.get_lunar_day().get_sixty_cycle().get_earth_branch().get_index() as i64) }
+              else { let v = t.get_sixty_cycle_hour(); (v.get_nine_star().get_index() as i64, v.get_day().get_earth_branch().get_index() as i64) };
+            let hi = (((h + 1) / 2) % 12) as i64;
+            let first = if asc { [0, 3, 6][(db % 3) as usize] } else { [8, 5, 2][(db % 3) as usize] };
+            let want = if asc { (first + hi).rem_euclid(9) } else { (first - hi).rem_euclid(9) };
+            if got != want { out = format!("{}-{}-{} {}:00 star index {} expected {} ({})", y, d.get_month(), d.get_day(), h, got, want, if asc { "ascending: on or after a winter solstice" } else { "descending" }); break 'scan; }
+          }
+          d = d.next(if d.get_month() == 12 && d.get_day() >= 17 { 1 } else { 5 });
+        }
+      }
+      out
+    }
     "fortune_scan" => {
       // decade / yearly fortunes of births on every 3rd day of 2000-2001 (both genders): ages, years and pillars against the rule
       use tyme4rs::tyme::eightchar::ChildLimit;
